@@ -95,6 +95,16 @@ def sign(v: Any) -> Optional[int]:
     return None
 
 
+def _walk_own(fn_node: ast.AST):
+    """nodes of a function body, not descending into nested functions / lambdas"""
+    todo = list(ast.iter_child_nodes(fn_node))
+    while todo:
+        n = todo.pop()
+        yield n
+        if not isinstance(n, (ast.FunctionDef, ast.Lambda, ast.ClassDef)):
+            todo.extend(ast.iter_child_nodes(n))
+
+
 class PosInterp:
     MAX_STEPS = 50000
     tag = 'POS-SEM'
@@ -109,6 +119,7 @@ class PosInterp:
         self.pos = 0
         self.taken: list[tuple[int, int, str]] = []
         self.memo: dict[Any, int] = {}
+        self._yields: list[list] = []
         self.steps = 0
 
     def err(self, node: ast.AST, what: str) -> AnalysisError:
@@ -195,10 +206,17 @@ class PosInterp:
                 if n not in defaults:
                     raise AnalysisError(f'POS-SEM: missing argument {n} calling {fn.qualname}')
                 env[n] = self.expr(defaults[n], {})
+        is_gen = any(isinstance(x, (ast.Yield, ast.YieldFrom)) for x in _walk_own(fn.node))
+        if is_gen:
+            self._yields.append([])
         try:
             self.block(stmts_no_doc(fn.node.body), env)
         except _Return as r:
+            if is_gen:
+                return self._yields.pop()
             return r.v
+        if is_gen:
+            return self._yields.pop()
         return None
 
     def call_value(self, f: Any, args: list, kwargs: dict, node: ast.AST) -> Any:
@@ -241,6 +259,21 @@ class PosInterp:
                 return any(vals_) if n == 'any' else all(vals_)
             if n == 'dict':
                 return dict(args[0]) if args else {}
+            if n == 'sum':
+                total: Any = args[1] if len(args) > 1 else 0
+                for x in self.iter_of(args[0], node):
+                    total = add(total, x)
+                return total
+            if n in ('set', 'frozenset'):
+                out_: list = []
+                for x in (self.iter_of(args[0], node) if args else []):
+                    if not any(x is y or (not isinstance(x, Obj) and x == y) for y in out_):
+                        out_.append(x)
+                return out_
+            if n == 'id':
+                return id(args[0])
+            if n == 'sorted':
+                return sorted(self.iter_of(args[0], node), **{k: v for k, v in kwargs.items() if k == 'reverse'})
             if n == 'isinstance':
                 v, c = args
                 if isinstance(c, ClassRef):
@@ -476,7 +509,7 @@ class PosInterp:
                 return env[e.id]
             if e.id in ('Position', '_StoreHandle', '_StoreBlock'):
                 return ClassRef(e.id)
-            if e.id in ('len', 'range', 'enumerate', 'list', 'isinstance', 'max', 'min', 'bool', 'abs', 'next', 'reversed', 'tuple', 'str', 'int', 'dict', 'iter', 'any', 'all', 'sorted', 'zip'):
+            if e.id in ('len', 'range', 'enumerate', 'list', 'isinstance', 'max', 'min', 'bool', 'abs', 'next', 'reversed', 'tuple', 'str', 'int', 'dict', 'iter', 'any', 'all', 'sorted', 'zip', 'sum', 'set', 'frozenset', 'id', 'repr'):
                 return Builtin(e.id)
             if e.id == 'NotImplemented':
                 return 'NotImplemented'
@@ -551,6 +584,12 @@ class PosInterp:
             return True
         if isinstance(e, ast.IfExp):
             return self.expr(e.body if self.truth(self.expr(e.test, env), e.test) else e.orelse, env)
+        if isinstance(e, ast.Yield):
+            self._yields[-1].append(self.expr(e.value, env) if e.value is not None else None)
+            return None
+        if isinstance(e, ast.YieldFrom):
+            self._yields[-1].extend(self.iter_of(self.expr(e.value, env), e))
+            return None
         if isinstance(e, ast.Tuple):
             return tuple(self.expr(x, env) for x in e.elts)
         if isinstance(e, ast.List):
@@ -888,3 +927,181 @@ def rule_pos_sem(ctx: RuleContext, ts: TS, rid: str, max_tokens: int = 4) -> Non
             ctx.fail(rid, f'token_store:{fn}', 'caches', first[0], where.get(fn, ''), first[1])
         else:
             ctx.ok(rid, f'token_store:{fn}', f'{n} scenarios, {paths} paths')
+
+
+# ====================================================================== NAV-SEM / BUILD-SEM (C07)
+def rule_nav_sem(ctx: RuleContext, ts: TS, rid: str) -> None:
+    ctx.rule(rid, 'finite-domain abstract evaluation of the navigation and addressing functions of TokenStore over every block layout of a small '
+                  'family (empty store, one block, several blocks of 1..3 tokens): get_first / get_last / get_next / get_prev / get_index / '
+                  'iter(a, b) / __iter__ / __len__ agree with the flat list of the blocks\' tokens for every token (pair), queries on a token '
+                  'without a handle are refused, and splice / insert_after / insert_before / remove / replace hand _splice the (block, index) '
+                  'coordinates of exactly the addressed positions')
+    layouts = [[0], [1], [3], [2, 1], [1, 3, 2], [2, 2, 2, 1]]
+    n = [0]
+    problems: dict[str, str] = {}
+
+    class Interp(PosInterp):
+        tag = 'NAV-SEM'
+
+        def __init__(self) -> None:
+            super().__init__(ts, [])
+            self.spliced: list = []
+
+        def compare(self, op: Any, a: Any, b: Any, node: Any) -> bool:          # type: ignore[override]
+            # token models compare by (RULE, text): in a document whose tokens all read the same, `==` holds between any two of them
+            if isinstance(op, (ast.Eq, ast.NotEq)) and isinstance(a, Obj) and isinstance(b, Obj) and a.cls == 'Token' and b.cls == 'Token':
+                return isinstance(op, ast.Eq)
+            return super().compare(op, a, b, node)
+
+        def call_function(self, fn: FuncInfo, args: list, kwargs: dict) -> Any:        # type: ignore[override]
+            if fn.qualname == 'TokenStore._splice':
+                self.spliced.append((list(args[1]), args[2], args[3]))
+                return None
+            return super().call_function(fn, args, kwargs)
+
+    def mk(layout: list[int]) -> tuple[Obj, list[Obj], dict[int, tuple[int, int]]]:
+        store = Obj('TokenStore', {'_blocks': [], '_len': sum(layout)}, 'store')
+        flat: list[Obj] = []
+        coord: dict[int, tuple[int, int]] = {}
+        for bi, k in enumerate(layout):
+            b = mk_block(store, bi, 'P' * k, f'b{bi}_')
+            store.f['_blocks'].append(b)
+            for ti, t in enumerate(b.f['tokens']):
+                coord[id(t)] = (bi, ti)
+                flat.append(t)
+        return store, flat, coord
+
+    def call(name: str, store: Obj, *args: Any) -> tuple[Any, Optional[str], 'Interp']:
+        it = Interp()
+        n[0] += 1
+        fn = ts.funcs.get(f'TokenStore.{name}')
+        if fn is None:
+            raise AnalysisError(f'NAV-SEM: TokenStore.{name} vanished')
+        try:
+            return it.call_function(fn, [store, *args], {}), None, it
+        except Raised as ex:
+            return None, str(ex), it
+
+    def note(fn: str, msg: str) -> None:
+        problems.setdefault(fn, msg)
+
+    for layout in layouts:
+        lay = f'blocks of {layout} tokens'
+        store, flat, coord = mk(layout)
+        idx = {id(t): i for i, t in enumerate(flat)}
+        r, ex, _ = call('get_first', store)
+        if ex or r is not (flat[0] if flat else None):
+            note('get_first', f'{lay}: get_first() gives {r!r} / {ex}')
+        r, ex, _ = call('get_last', store)
+        if ex or r is not (flat[-1] if flat else None):
+            note('get_last', f'{lay}: get_last() gives {r!r} / {ex}')
+        r, ex, _ = call('__len__', store)
+        if ex or r != len(flat):
+            note('__len__', f'{lay}: len() gives {r!r} / {ex}')
+        r, ex, _ = call('__iter__', store)
+        if ex or not isinstance(r, list) or [id(x) for x in r] != [id(x) for x in flat]:
+            note('__iter__', f'{lay}: iteration does not yield the tokens of the blocks in order ({ex})')
+        for i, t in enumerate(flat):
+            r, ex, _ = call('get_next', store, t)
+            if ex or r is not (flat[i + 1] if i + 1 < len(flat) else None):
+                note('get_next', f'{lay}: get_next(token {i}) gives {r!r} / {ex}, expected token {i + 1 if i + 1 < len(flat) else None}')
+            r, ex, _ = call('get_prev', store, t)
+            if ex or r is not (flat[i - 1] if i > 0 else None):
+                note('get_prev', f'{lay}: get_prev(token {i}) gives {r!r} / {ex}, expected token {i - 1 if i > 0 else None}')
+            r, ex, _ = call('get_index', store, t)
+            if ex or r != i:
+                note('get_index', f'{lay}: get_index(token {i}) gives {r!r} / {ex}')
+            for j in range(i, len(flat)):
+                r, ex, _ = call('iter', store, t, flat[j])
+                if ex or not isinstance(r, list) or [id(x) for x in r] != [id(x) for x in flat[i:j + 1]]:
+                    got = [idx.get(id(x)) for x in r] if isinstance(r, list) else r
+                    note('iter', f'{lay}: iter(token {i}, token {j}) yields tokens {got} / {ex}, expected {list(range(i, j + 1))}')
+        loose = mk_token('loose', False)
+        for q in ('get_next', 'get_prev', 'get_index'):
+            r, ex, _ = call(q, store, loose)
+            if ex is None:
+                note(q, f'{lay}: {q}() of a token that is in no store answers {r!r} instead of refusing')
+        # addressing of the mutators
+        new = [mk_token('n0', False)]
+        r, ex, it = call('insert_after', store, None, new)
+        if ex or it.spliced != [(new, (0, 0), (0, 0))]:
+            note('insert_after', f'{lay}: insert_after(None, ..) addresses {[(s[1], s[2]) for s in it.spliced]} / {ex}, expected (0, 0)..(0, 0)')
+        r, ex, it = call('insert_before', store, None, new)
+        if ex or it.spliced != [(new, (0, 0), (0, 0))]:
+            note('insert_before', f'{lay}: insert_before(None, ..) addresses {[(s[1], s[2]) for s in it.spliced]} / {ex}')
+        for i, t in enumerate(flat):
+            bi, ti = coord[id(t)]
+            r, ex, it = call('insert_after', store, t, new)
+            if ex or it.spliced != [(new, (bi, ti + 1), (bi, ti + 1))]:
+                note('insert_after', f'{lay}: insert_after(token {i}) addresses {[(s[1], s[2]) for s in it.spliced]} / {ex}, expected ({bi}, {ti + 1}) empty range')
+            r, ex, it = call('insert_before', store, t, new)
+            if ex or it.spliced != [(new, (bi, ti), (bi, ti))]:
+                note('insert_before', f'{lay}: insert_before(token {i}) addresses {[(s[1], s[2]) for s in it.spliced]} / {ex}, expected ({bi}, {ti}) empty range')
+            r, ex, it = call('replace', store, t, new[0])
+            if ex or len(it.spliced) != 1 or it.spliced[0][1:] != ((bi, ti), (bi, ti + 1)) or [id(x) for x in it.spliced[0][0]] != [id(new[0])]:
+                note('replace', f'{lay}: replace(token {i}) addresses {[(s[1], s[2]) for s in it.spliced]} / {ex}')
+            r, ex, it = call('remove', store, t)
+            if ex or len(it.spliced) != 1 or it.spliced[0][1:] != ((bi, ti), (bi, ti + 1)) or it.spliced[0][0] != []:
+                note('remove', f'{lay}: remove(token {i}) addresses {[(s[1], s[2]) for s in it.spliced]} / {ex}')
+            for j in range(i, len(flat)):
+                bj, tj = coord[id(flat[j])]
+                r, ex, it = call('splice', store, new, t, flat[j])
+                if ex or it.spliced != [(new, (bi, ti), (bj, tj + 1))]:
+                    note('splice', f'{lay}: splice(.., token {i}, token {j}) addresses {[(s[1], s[2]) for s in it.spliced]} / {ex}, expected ({bi}, {ti})..({bj}, {tj + 1})')
+                r, ex, it = call('remove', store, t, flat[j])
+                if ex or len(it.spliced) != 1 or it.spliced[0][1:] != ((bi, ti), (bj, tj + 1)):
+                    note('remove', f'{lay}: remove(token {i}, token {j}) addresses {[(s[1], s[2]) for s in it.spliced]} / {ex}')
+    if n[0] < 300:
+        raise AnalysisError(f'NAV-SEM: only {n[0]} calls evaluated')
+    for fn in ('get_first', 'get_last', '__len__', '__iter__', 'get_next', 'get_prev', 'get_index', 'iter', 'insert_after', 'insert_before',
+               'splice', 'remove', 'replace'):
+        f = ts.funcs.get(f'TokenStore.{fn}')
+        where = f'{ts.m.relpath}:{f.node.lineno}' if f else ''
+        ctx.check(fn not in problems, rid, f'token_store:TokenStore.{fn}', 'agrees with the flat list', problems.get(fn, ''), where,
+                  note=f'{len(layouts)} layouts, every token / token pair')
+
+
+def rule_build_sem(ctx: RuleContext, ts: TS, rid: str) -> None:
+    ctx.rule(rid, '_build_blocks, interpreted on token lists of lengths around every threshold it tests (0, 1, LOAD-1 .. 3*LOAD+1, 4.5*LOAD): the '
+                  'blocks it returns hold the input tokens exactly once, in order, each block consistent (caches, handles), indexed '
+                  'start_index, start_index+1, ..., and attached to the store it was given')
+    f = ts._need('_build_blocks')
+    it0 = PosInterp(ts, [])
+    try:
+        load = it0.expr(ast.Name(id='_LOAD_FACTOR', ctx=ast.Load()), {})
+    except AnalysisError:
+        load = 1000
+    if not isinstance(load, int) or not 2 <= load <= 5000:
+        raise AnalysisError(f'BUILD-SEM: _LOAD_FACTOR evaluates to {load!r}')
+    sizes = sorted({0, 1, 2, load - 1, load, load + 1, load + load // 2 - 1, load + load // 2, load + load // 2 + 1, 2 * load - 1, 2 * load,
+                    2 * load + 1, 3 * load + 1})
+    problem = ''
+    for nlen in sizes:
+        store = Obj('TokenStore', {'_blocks': [], '_len': 0}, 'store')
+        toks = [mk_token(f't{i}', i % 7 == 3) for i in range(nlen)]
+        it = PosInterp(ts, [])
+        it.MAX_STEPS = 2_000_000
+        try:
+            blocks = it.call_function(f, [store, 5, toks], {})
+        except Raised as ex:
+            problem = problem or f'{nlen} tokens: raises {ex}'
+            continue
+        if not isinstance(blocks, list) or not all(isinstance(b, Obj) and b.cls == '_StoreBlock' for b in blocks):
+            problem = problem or f'{nlen} tokens: returns {blocks!r}'
+            continue
+        got = [t for b in blocks for t in b.f['tokens']]
+        if [id(t) for t in got] != [id(t) for t in toks]:
+            problem = problem or f'{nlen} tokens: the blocks hold {len(got)} tokens, not the {nlen} given ones in order'
+            continue
+        if nlen and not blocks:
+            problem = problem or f'{nlen} tokens: no block'
+        for k, b in enumerate(blocks):
+            if b.f.get('index') != 5 + k or b.f.get('store') is not store:
+                problem = problem or f'{nlen} tokens: block {k} has index {b.f.get("index")!r} (expected {5 + k}) or a foreign store'
+            pr = judge_block(b, sizes_of(b), True)
+            if pr:
+                problem = problem or f'{nlen} tokens: block {k}: {pr}'
+            if nlen and not b.f['tokens']:
+                problem = problem or f'{nlen} tokens: block {k} is empty'
+    ctx.check(not problem, rid, 'token_store:_build_blocks', 'partition', f'_build_blocks: {problem}', f.where,
+              note=f'lengths {sizes}')
